@@ -708,6 +708,9 @@ class W3PostingsWriter(base.PostingsWriter):
         self._ids.append(id_)
         self._weights.append(weight)
 
+        # The weights are stored as 32-bit floats; the block's maximum must be
+        # the maximum of the stored values to be an upper bound on them
+        weight = self._weights[-1]
         if weight > self._maxweight:
             self._maxweight = weight
         if vbytes:
